@@ -19,7 +19,9 @@ func RunC04(rep *report.Report, tier string) {
 	ck := ribhist.NewClock(tier, 100*time.Second, 20*time.Minute, 2)
 	ids := []ID{{0, 1}, {0, 2}, {1, 1}, {2, 1}}
 	abs := []ID{{0, 1}, {1, 1}, {2, 1}}
-	entries := []string{"ADD nh1", "DELETE nh1", "ADD v4->1"}
+	// (the chain nh1 <- nhg1 <- v4 so that a forward reference held for one session can actually be resolved by
+	// another session's operations: a superseded session's held operation must never take effect)
+	entries := []string{"ADD nh1", "DELETE nh1", "ADD v4->1", "ADD nhg1{1}"}
 	n, depth := 2, 5
 	if tier == "thorough" {
 		n, depth = 3, 8 // (as deep as the budget allows: the search reports the depth it completed)
@@ -32,6 +34,33 @@ func RunC04(rep *report.Report, tier string) {
 	for _, nofwd := range []bool{false, true} {
 		o := &Options{Letters: ls, Sessions: n, NoFwdRefs: nofwd, Checks: Checks{Primary: true, Election: true}}
 		search(rep, fmt.Sprintf("handlers/%d-sessions/forward-refs-%v", n, !nofwd), o, depth, ck.Next())
+	}
+	// From states in which the primary holds an operation (a forward reference): whatever the other session does -
+	// take over with a higher or an EQUAL id, program the missing references itself - the superseded session's held
+	// operation must never take effect.
+	idx := func(name string) int {
+		for i, l := range ls {
+			if l.Name == name {
+				return i
+			}
+		}
+		panic("sesshist: no letter " + name)
+	}
+	d := 3
+	if tier == "thorough" {
+		d = 5
+	}
+	for label, init := range map[string][]string{
+		"primary-holds-an-operation":          {"open s0", "open s1", "announce s0 (0,1)", "operate s0 [ADD v4->1] stamp=own"},
+		"primary-holds-an-operation/other-id": {"open s0", "open s1", "announce s1 (0,1)", "announce s0 (0,2)", "operate s0 [ADD v4->1] stamp=own"},
+	} {
+		var root []int
+		for _, nm := range init {
+			root = append(root, idx(nm))
+		}
+		o := &Options{Letters: ls, Sessions: n, Checks: Checks{Primary: true, Election: true}}
+		res := mc.BFS(mc.Config{Letters: Names(ls), New: New(o), MaxDepth: len(root) + d, Root: root, Deadline: ribhist.Budget(tier, 40*time.Second, 10*time.Minute)})
+		ribhist.Merge(rep, fmt.Sprintf("handlers/%d-sessions/from-%s", n, label), res, len(root)+d)
 	}
 }
 
